@@ -94,6 +94,8 @@ var StringAtoms = []string{
 	"a", `"`, `\`, "/", "<", ">", "&", "\x00", "\x1f", "\n", "\t", "\x7f",
 	"é", "€", " ", " ", "\U0001F600",
 	"\xff", "\xc3", "\xed\xa0\x80", "�",
+	// more ill-formed UTF-8: overlong 2- and 3-byte forms, beyond U+10FFFF, 5-byte form, lone continuation byte
+	"\xc0\x80", "\xc1\xbf", "\xe0\x80\x80", "\xf4\x90\x80\x80", "\xf8\x88\x80\x80\x80", "\x80",
 }
 
 // LongLens are the string lengths that cross length-width and buffer boundaries.
